@@ -11,7 +11,18 @@ func (sc *Scenario) Shrink(rec []uint64, run, seed uint64, thorough bool, sig st
 		}
 		evals++
 		st := newStats()
-		v, _ := sc.Execute(NewReplayTape(cand), run, seed, thorough, st, false)
+		// a tape rewritten by the shrinker can lead a generator where no tape it drew
+		// itself leads (self-checks, index arithmetic): a panic in the harness under
+		// such a tape just means "this candidate does not reproduce the violation"
+		var v *Violation
+		func() {
+			defer func() {
+				if r := recover(); r != nil {
+					v = nil
+				}
+			}()
+			v, _ = sc.Execute(NewReplayTape(cand), run, seed, thorough, st, false)
+		}()
 		return v != nil && v.Sig == sig
 	}
 	cur := append([]uint64(nil), rec...)
